@@ -284,10 +284,44 @@ class ExprNorm(ast.NodeTransformer):
                 return self.visit_JoinedStr(new)
         return node
 
+    def _eval_comprehension(self, node):
+        """[f(x) for x in (a, b, c)] over a literal display, no condition ->
+        [f(a), f(b), f(c)]"""
+        if len(node.generators) != 1:
+            return None
+        g = node.generators[0]
+        if g.ifs or g.is_async or not isinstance(g.iter, (ast.Tuple, ast.List)) or \
+                len(g.iter.elts) > 12 or any(isinstance(e, ast.Starred) for e in g.iter.elts):
+            return None
+        out = []
+        for e in g.iter.elts:
+            binding = _bind_target(g.target, e)
+            if binding is None:
+                return None
+            out.append(_substitute_names(node.elt, binding))
+        return out
+
+    def visit_ListComp(self, node):
+        self.generic_visit(node)
+        vals = self._eval_comprehension(node)
+        if vals is not None:
+            return _loc(ast.List(elts=vals, ctx=ast.Load()), node)
+        return node
+
     def visit_Call(self, node):
         self.generic_visit(node)
         d = dotted(node.func)
         args = node.args
+        if d in ('tuple', 'list', 'set', 'frozenset') and len(args) == 1 and not node.keywords \
+                and isinstance(args[0], (ast.GeneratorExp, ast.ListComp)):
+            vals = self._eval_comprehension(args[0])
+            if vals is not None:
+                if d == 'tuple':
+                    return _loc(ast.Tuple(elts=vals, ctx=ast.Load()), node)
+                if d == 'list':
+                    return _loc(ast.List(elts=vals, ctx=ast.Load()), node)
+                if vals:
+                    return _loc(ast.Set(elts=vals), node)
         if not node.keywords and len(args) == 1 and not isinstance(args[0], ast.Starred):
             a = args[0]
             seq = isinstance(a, (ast.List, ast.Tuple, ast.Set)) and \
@@ -348,6 +382,36 @@ class ExprNorm(ast.NodeTransformer):
 
 def norm_expr(e):
     return ExprNorm().visit(e)
+
+
+def _bind_target(target, value):
+    """{name: expr} for `target = value` with literal structure, else None"""
+    if isinstance(target, ast.Name):
+        return {target.id: value}
+    if isinstance(target, (ast.Tuple, ast.List)) and isinstance(value, (ast.Tuple, ast.List)) \
+            and len(target.elts) == len(value.elts):
+        out = {}
+        for t, v in zip(target.elts, value.elts):
+            b = _bind_target(t, v)
+            if b is None:
+                return None
+            out.update(b)
+        return out
+    return None
+
+
+class _NameSub(ast.NodeTransformer):
+    def __init__(self, mapping):
+        self.mapping = mapping
+
+    def visit_Name(self, node):
+        if isinstance(node.ctx, ast.Load) and node.id in self.mapping:
+            return _loc(copy.deepcopy(self.mapping[node.id]), node)
+        return node
+
+
+def _substitute_names(node, mapping):
+    return _NameSub(mapping).visit(copy.deepcopy(node))
 
 
 def negate(test):
@@ -446,7 +510,91 @@ class StmtNorm(object):
         return tree
 
     # -- one statement list --------------------------------------------------
+    def split_tuple_assign(self, stmts):
+        """a, b = x, y  ->  a = x; b = y   when no right side mentions a target"""
+        out = []
+        for s in stmts:
+            if isinstance(s, ast.Assign) and len(s.targets) == 1 and \
+                    isinstance(s.targets[0], ast.Tuple) and isinstance(s.value, ast.Tuple) and \
+                    len(s.targets[0].elts) == len(s.value.elts) and \
+                    not any(isinstance(e, ast.Starred) for e in s.targets[0].elts + s.value.elts):
+                tgt_names = set()
+                for t in s.targets[0].elts:
+                    for n in ast.walk(t):
+                        if isinstance(n, ast.Name):
+                            tgt_names.add(n.id)
+                        elif isinstance(n, ast.Attribute):
+                            tgt_names.add(n.attr)
+                used = set()
+                for v in s.value.elts:
+                    for n in ast.walk(v):
+                        if isinstance(n, ast.Name):
+                            used.add(n.id)
+                        elif isinstance(n, ast.Attribute):
+                            used.add(n.attr)
+                pure = all(not _has_call(v) for v in s.value.elts[1:]) or \
+                    all(isinstance(t, ast.Name) for t in s.targets[0].elts)
+                if not (tgt_names & used) and pure:
+                    self.bump('tuple-assign-split')
+                    for t, v in zip(s.targets[0].elts, s.value.elts):
+                        out.append(_loc(ast.Assign(targets=[t], value=v), s))
+                    continue
+            out.append(s)
+        return out
+
+    def unroll_constant_loops(self, stmts):
+        """for a, b in ((1, x), (2, y)): BODY  ->  BODY[a:=1, b:=x]; BODY[a:=2, b:=y]
+        (literal table, loop variables not assigned in the body, no break/continue/else)"""
+        out = []
+        for s in stmts:
+            if isinstance(s, ast.For) and not s.orelse and \
+                    isinstance(s.iter, (ast.Tuple, ast.List)) and 0 < len(s.iter.elts) <= 8 and \
+                    all(isinstance(e, (ast.Tuple, ast.List, ast.Constant, ast.Name, ast.Attribute))
+                        for e in s.iter.elts) and \
+                    not any(isinstance(n, (ast.Break, ast.Continue, ast.Yield, ast.YieldFrom,
+                                           ast.Await, ast.FunctionDef, ast.Lambda))
+                            for b in s.body for n in ast.walk(b)) and \
+                    sum(1 for b in s.body for _ in ast.walk(b)) <= 40:
+                tnames = {n.id for n in ast.walk(s.target) if isinstance(n, ast.Name)}
+                stored = {n.id for b in s.body for n in ast.walk(b)
+                          if isinstance(n, ast.Name) and isinstance(n.ctx, (ast.Store, ast.Del))}
+                binds = [_bind_target(s.target, e) for e in s.iter.elts]
+                if not (tnames & stored) and all(b is not None for b in binds) and \
+                        all(is_simple(v) or isinstance(v, ast.Constant)
+                            for b in binds for v in b.values()):
+                    self.bump('constant-loop-unrolled')
+                    for b in binds:
+                        for st in s.body:
+                            out.append(_substitute_names(st, b))
+                    continue
+            out.append(s)
+        return out
+
+    def fold_known_tests(self, stmts):
+        """x = None; if x is None: A else: B   ->   x = None; A"""
+        out = []
+        i = 0
+        while i < len(stmts):
+            s = stmts[i]
+            nxt = stmts[i + 1] if i + 1 < len(stmts) else None
+            if isinstance(s, ast.Assign) and len(s.targets) == 1 and \
+                    isinstance(s.targets[0], ast.Name) and isinstance(s.value, ast.Constant) and \
+                    isinstance(nxt, ast.If):
+                v = _test_value(nxt.test, s.targets[0].id, s.value.value)
+                if v is not None:
+                    self.bump('known-test-folded')
+                    out.append(s)
+                    out.extend(nxt.body if v else nxt.orelse)
+                    i += 2
+                    continue
+            out.append(s)
+            i += 1
+        return out
+
     def block(self, stmts, loop_tail, func_tail):
+        stmts = self.split_tuple_assign(stmts)
+        stmts = self.fold_known_tests(stmts)
+        stmts = self.unroll_constant_loops(stmts)
         stmts = self.expand_ifexp(stmts)
         stmts = self.thread_flags(stmts)
         stmts = self.loops_to_comprehensions(stmts)
@@ -468,6 +616,10 @@ class StmtNorm(object):
             if isinstance(s, ast.If) and isinstance(s.test, ast.Constant) and False:
                 pass
             flat.append(s)
+        flat = [s for s in flat if not (
+            isinstance(s, ast.Assign) and len(s.targets) == 1 and
+            isinstance(s.targets[0], ast.Name) and isinstance(s.value, ast.Name) and
+            s.value.id == s.targets[0].id)]          # x = x
         stmts = [s for s in flat if not (isinstance(s, ast.Pass) and len(flat) > 1)]
         if not stmts:
             stmts = [ast.Pass()]
@@ -697,6 +849,17 @@ class StmtNorm(object):
                 s.orelse = self.block(s.orelse, loop_tail, func_tail)
             if s.orelse and len(s.orelse) == 1 and isinstance(s.orelse[0], ast.Pass):
                 s.orelse = []
+            # if a: if b: X   ->   if a and b: X
+            while not s.orelse and len(s.body) == 1 and isinstance(s.body[0], ast.If) and \
+                    not s.body[0].orelse:
+                inner = s.body[0]
+                self.bump('nested-if-merged')
+                vals = (s.test.values if isinstance(s.test, ast.BoolOp) and
+                        isinstance(s.test.op, ast.And) else [s.test]) + \
+                    (inner.test.values if isinstance(inner.test, ast.BoolOp) and
+                     isinstance(inner.test.op, ast.And) else [inner.test])
+                s.test = _loc(ast.BoolOp(op=ast.And(), values=list(vals)), s.test)
+                s.body = inner.body
             if s.orelse and len(s.body) == 1 and isinstance(s.body[0], ast.Pass):
                 self.bump('empty-body-swapped')
                 s.test = negate(s.test)
@@ -744,6 +907,29 @@ class StmtNorm(object):
         return s
 
 
+def _test_value(test, name, const):
+    """truth of `test` when `name` holds the constant, or None if it depends on more"""
+    if isinstance(test, ast.Name) and test.id == name:
+        return bool(const)
+    if isinstance(test, ast.UnaryOp) and isinstance(test.op, ast.Not):
+        v = _test_value(test.operand, name, const)
+        return None if v is None else (not v)
+    if isinstance(test, ast.Compare) and len(test.ops) == 1 and \
+            isinstance(test.left, ast.Name) and test.left.id == name and \
+            isinstance(test.comparators[0], ast.Constant):
+        k = test.comparators[0].value
+        op = test.ops[0]
+        if isinstance(op, ast.Is):
+            return const is k
+        if isinstance(op, ast.IsNot):
+            return const is not k
+        if isinstance(op, ast.Eq):
+            return const == k
+        if isinstance(op, ast.NotEq):
+            return const != k
+    return None
+
+
 def _pure_flag_value(e):
     """cheap and free of side effects: may be evaluated once more"""
     for n in ast.walk(e):
@@ -773,11 +959,13 @@ def _target_in(target, expr):
 
 # ---------------------------------------------------------------------------
 # P1 constants
-def _immutable(n):
+def _immutable(n, names_ok=False):
     if is_constlike(n):
         return True
     if isinstance(n, ast.Tuple):
-        return all(_immutable(e) for e in n.elts)
+        return all(_immutable(e, names_ok) for e in n.elts)
+    if names_ok and dotted(n) is not None:
+        return True          # a reference (imported constant, class, errno.X): evaluated at the use
     return False
 
 
@@ -787,6 +975,8 @@ def _literal_of(value):
     one shared object into many."""
     if _immutable(value):
         return value
+    if isinstance(value, ast.Tuple) and value.elts and _immutable(value, True):
+        return value           # tuple of references, e.g. (DEAD_OR_ZOMBIE, UNEXISTING)
     if isinstance(value, ast.Call) and not value.keywords and len(value.args) == 1:
         d = dotted(value.func)
         a = value.args[0]
@@ -1158,21 +1348,32 @@ class Inliner(object):
         self.rejected = {}                    # key -> reason
         self.counter = 0
 
+    def _classes(self, tree):
+        """(qualified class name, ClassDef) incl. classes nested in classes"""
+        out = []
+
+        def rec(body, prefix):
+            for s in body:
+                if isinstance(s, ast.ClassDef):
+                    out.append((prefix + s.name, s))
+                    rec(s.body, prefix + s.name + '.')
+        rec(tree.body, '')
+        return out
+
     def collect(self):
         for modname, tree in self.trees.items():
-            for s in tree.body:
-                if isinstance(s, ast.ClassDef):
-                    for b in s.body:
-                        if isinstance(b, (ast.FunctionDef, ast.AsyncFunctionDef)):
-                            self.method_names[b.name] = self.method_names.get(b.name, 0) + 1
+            for cname, c in self._classes(tree):
+                for b in c.body:
+                    if isinstance(b, (ast.FunctionDef, ast.AsyncFunctionDef)):
+                        self.method_names[b.name] = self.method_names.get(b.name, 0) + 1
         for modname, tree in self.trees.items():
             for s in tree.body:
                 if isinstance(s, (ast.FunctionDef, ast.AsyncFunctionDef)):
                     self._consider(Helper(modname, None, s))
-                elif isinstance(s, ast.ClassDef):
-                    for b in s.body:
-                        if isinstance(b, (ast.FunctionDef, ast.AsyncFunctionDef)):
-                            self._consider(Helper(modname, s.name, b))
+            for cname, c in self._classes(tree):
+                for b in c.body:
+                    if isinstance(b, (ast.FunctionDef, ast.AsyncFunctionDef)):
+                        self._consider(Helper(modname, cname, b))
 
     def _consider(self, h):
         if h.key in self.ref:
@@ -1195,6 +1396,8 @@ class Inliner(object):
     # -- resolution ----------------------------------------------------------
     def resolve(self, call, modname, clsname, shadow):
         f = call.func
+        if isinstance(f, ast.Name) and f.id in getattr(self, '_local', {}):
+            return self._local[f.id]
         if isinstance(f, ast.Name):
             h = self.by_module.get(modname, {}).get(f.id)
             if h is not None and f.id not in shadow:
@@ -1257,8 +1460,15 @@ class Inliner(object):
         mapping, rename, prelude = {}, {}, []
         if selfname:
             mapping[selfname] = ast.Name(id='self', ctx=ast.Load())
+        inplace = getattr(self, '_inplace_target', None)
         for p in params:
             a = bound[p]
+            if p in stored and inplace is not None and isinstance(a, ast.Name) and \
+                    a.id == inplace and _returns_only(body, p):
+                # x = helper(.., x, ..): the helper works on a copy of x and hands it
+                # back; on the caller's side that is an update of x
+                rename[p] = inplace
+                continue
             uses = sum(1 for s in body for n in ast.walk(s)
                        if isinstance(n, ast.Name) and n.id == p)
             if p not in stored and (is_simple(a) or (uses <= 1 and not _has_call(a))):
@@ -1277,6 +1487,9 @@ class Inliner(object):
         body = [sub.visit(s) for s in body]
         return prelude, body, rename
 
+    def _first_evaluated_dummy(self):
+        pass
+
     def _first_evaluated(self, body, p):
         """parameter p's single use is in the first simple statement"""
         s = body[0]
@@ -1287,31 +1500,65 @@ class Inliner(object):
     # -- rewriting -----------------------------------------------------------
     def run(self):
         self.collect()
-        if not self.helpers:
-            return
         for rounds in range(4):
             changed = False
             for modname, tree in self.trees.items():
                 for s in tree.body:
                     if isinstance(s, (ast.FunctionDef, ast.AsyncFunctionDef)):
                         changed |= self.function(s, modname, None)
-                    elif isinstance(s, ast.ClassDef):
-                        for b in s.body:
-                            if isinstance(b, (ast.FunctionDef, ast.AsyncFunctionDef)):
-                                changed |= self.function(b, modname, s.name)
+                for cname, c in self._classes(tree):
+                    for b in c.body:
+                        if isinstance(b, (ast.FunctionDef, ast.AsyncFunctionDef)):
+                            changed |= self.function(b, modname, cname)
             if not changed:
                 break
         self.remove_unreferenced()
 
+    def _local_helpers(self, fnode, modname):
+        """nested functions that are only ever called directly inside fnode: local
+        helpers, inlined like new private ones (whether or not the reference has them)"""
+        out = {}
+        callees = {id(c.func) for c in ast.walk(fnode) if isinstance(c, ast.Call)}
+        for st in _own_nodes(fnode):
+            if isinstance(st, ast.FunctionDef) and not st.decorator_list:
+                uses = [n for n in ast.walk(fnode) if isinstance(n, ast.Name) and
+                        n.id == st.name and isinstance(n.ctx, ast.Load)]
+                inner = {id(n) for n in ast.walk(st)}
+                outer_uses = [u for u in uses if id(u) not in inner]
+                if not outer_uses or not all(id(u) in callees for u in uses):
+                    continue
+                h = Helper(modname, None, st)
+                h.key = '%s:%s.%s' % (modname, fnode.name, st.name)
+                if h.eligible() is None:
+                    out[st.name] = h
+        return out
+
     def function(self, fnode, modname, clsname, outer_names=frozenset()):
         names = _bound_names(fnode) | outer_names
+        saved_local = getattr(self, '_local', {})
+        self._local = self._local_helpers(fnode, modname)
         self._cur = (fnode, modname, clsname, names)
         before = len(self.inlined)
         fnode.body = self.block(fnode.body)
+        # a nested function that is not referenced (any more) disappears
+        nested = [n for n in _own_nodes(fnode) if isinstance(n, ast.FunctionDef)]
+        for nd in nested:
+            still = any(isinstance(n, ast.Name) and n.id == nd.name and isinstance(n.ctx, ast.Load)
+                        for n in ast.walk(fnode))
+            if still:
+                continue
+            for parent in ast.walk(fnode):
+                for field in ('body', 'orelse', 'finalbody'):
+                    lst = getattr(parent, field, None)
+                    if isinstance(lst, list) and nd in lst:
+                        lst.remove(nd)
+                        if not lst and field == 'body':
+                            lst.append(ast.Pass())
         for n in list(_own_nodes(fnode)):
             if isinstance(n, (ast.FunctionDef, ast.AsyncFunctionDef)):
                 self.function(n, modname, clsname, names)
                 self._cur = (fnode, modname, clsname, names)
+        self._local = saved_local
         return len(self.inlined) != before
 
     def _calls_in(self, expr_holder):
@@ -1392,7 +1639,8 @@ class Inliner(object):
         if isinstance(s, ast.While):
             self._subst_expression_helpers(s, ['test'])
             return [self._recurse(s)]
-        pre = []
+        pre = self._renest_partials(s)
+        self._helpers_as_values(s)
         failed = set()
         for guard in range(12):
             found = [f for f in self._calls_in(self._own_exprs(s)) if id(f[0]) not in failed]
@@ -1410,6 +1658,88 @@ class Inliner(object):
                 # statement replaced by a block: recurse into the block
                 return pre + self.block(s_list)
         return pre + [self._recurse(s)]
+
+    def _helpers_as_values(self, s):
+        """key=new_helper  ->  key=lambda x: <its expression>   (a lambda that was
+        given a name at module level)"""
+        fnode, modname, clsname, names = self._cur
+        for e in self._own_exprs(s):
+            callees = {id(n.func) for n in ast.walk(e) if isinstance(n, ast.Call)}
+            for n in list(ast.walk(e)):
+                if isinstance(n, ast.Name) and isinstance(n.ctx, ast.Load) and \
+                        id(n) not in callees and n.id not in names:
+                    h = self.by_module.get(modname, {}).get(n.id)
+                    if h is None or h.single_expr() is None or h.node.args.defaults:
+                        continue
+                    lam = ast.Lambda(args=copy.deepcopy(h.node.args),
+                                     body=copy.deepcopy(h.single_expr()))
+
+                    class R(ast.NodeTransformer):
+                        def visit_Name(self_, node):
+                            return _loc(lam, node) if node is n else node
+                    R().visit(s)
+                    self.inlined.append('%s -> %s (lambda)' % (h.key, fnode.name))
+
+    def _renest_partials(self, s):
+        """functools.partial(new_helper, a, b)  ->  a nested function closing over a, b
+        (the inverse of lifting a closure to module level)"""
+        fnode, modname, clsname, names = self._cur
+        pre = []
+        for e in self._own_exprs(s):
+            for n in list(ast.walk(e)):
+                if not (isinstance(n, ast.Call) and dotted(n.func) in ('functools.partial',
+                                                                        'partial') and n.args):
+                    continue
+                fake = ast.Call(func=n.args[0], args=list(n.args[1:]), keywords=list(n.keywords))
+                h = self.resolve(fake, modname, clsname, names)
+                if h is None or h.node is fnode:
+                    continue
+                if any(isinstance(a, ast.Starred) for a in fake.args) or \
+                        any(k.arg is None for k in fake.keywords):
+                    continue
+                params = list(h.node.args.args)
+                defaults = list(h.node.args.defaults)
+                dmap = dict(zip([p.arg for p in params][len(params) - len(defaults):], defaults))
+                mapping = {}
+                if h.clsname and not h.static:
+                    if not params:
+                        continue
+                    mapping[params[0].arg] = ast.Name(id='self', ctx=ast.Load())
+                    params = params[1:]
+                if len(fake.args) > len(params):
+                    continue
+                bound = {}
+                for p, a in zip(params, fake.args):
+                    bound[p.arg] = a
+                ok = True
+                for k in fake.keywords:
+                    if k.arg not in [p.arg for p in params] or k.arg in bound:
+                        ok = False
+                    bound[k.arg] = k.value
+                if not ok or not all(is_simple(a) for a in bound.values()):
+                    continue
+                stored = {x.id for b in h.body() for x in ast.walk(b)
+                          if isinstance(x, ast.Name) and isinstance(x.ctx, (ast.Store, ast.Del))}
+                if stored & set(bound):
+                    continue
+                mapping.update(bound)
+                rest = [p for p in params if p.arg not in bound]
+                rest_defaults = [dmap[p.arg] for p in rest if p.arg in dmap]
+                body = [_Subst(mapping, {}).visit(copy.deepcopy(b)) for b in h.body()]
+                name = '%s__closure' % h.name.strip('_')
+                fd = ast.FunctionDef(
+                    name=name, args=ast.arguments(
+                        posonlyargs=[], args=[ast.arg(arg=p.arg) for p in rest], vararg=None,
+                        kwonlyargs=[], kw_defaults=[], kwarg=None,
+                        defaults=[copy.deepcopy(d) for d in rest_defaults]),
+                    body=body, decorator_list=[], returns=None, type_comment=None)
+                if hasattr(fd, 'type_params'):
+                    fd.type_params = []
+                pre.append(_loc(fd, s))
+                self._replace(s, n, ast.Name(id=name, ctx=ast.Load()))
+                names.add(name)
+                self.inlined.append('%s -> %s (closure)' % (h.key, fnode.name))
+        return pre
 
     def _subst_expression_helpers(self, s, fields):
         fnode, modname, clsname, names = self._cur
@@ -1436,7 +1766,12 @@ class Inliner(object):
     def _inline_at(self, s, call, h, cond):
         """-> (prelude, [statements replacing s]) or None"""
         fnode, modname, clsname, names = self._cur
+        self._inplace_target = None
+        if isinstance(s, ast.Assign) and s.value is call and len(s.targets) == 1 and \
+                isinstance(s.targets[0], ast.Name):
+            self._inplace_target = s.targets[0].id
         inst = self.instantiate(h, call, names)
+        self._inplace_target = None
         if inst is None:
             return None
         prelude, body, rename = inst
@@ -1477,7 +1812,9 @@ class Inliner(object):
                 return []
             return prelude, (finish(make, None) or [_loc(ast.Pass(), s)])
         if isinstance(s, ast.Assign) and s.value is call and len(s.targets) == 1 and \
-                isinstance(s.targets[0], (ast.Name, ast.Attribute)):
+                (isinstance(s.targets[0], (ast.Name, ast.Attribute)) or
+                 (isinstance(s.targets[0], ast.Tuple) and
+                  all(isinstance(e, (ast.Name, ast.Attribute)) for e in s.targets[0].elts))):
             target = s.targets[0]
             return prelude, self._assign_form(h, body, target, s, finish)
         # 3. call nested in a larger expression of a simple statement: hoist
@@ -1512,6 +1849,29 @@ class Inliner(object):
                             n.id = target.id
                         elif isinstance(n, ast.ExceptHandler) and n.name == loc:
                             n.name = target.id
+                return body[:-1] or [_loc(ast.Pass(), s)]
+
+        # `return a, b` of distinct locals at the single tail + `x, y = helper()`:
+        # the locals simply become the targets
+        if isinstance(target, ast.Tuple) and all(isinstance(e, ast.Name) for e in target.elts) \
+                and body and isinstance(body[-1], ast.Return) and \
+                isinstance(body[-1].value, ast.Tuple) and \
+                len(body[-1].value.elts) == len(target.elts) and \
+                all(isinstance(e, ast.Name) for e in body[-1].value.elts) and \
+                not _has_return_list(body[:-1]):
+            locs = [e.id for e in body[-1].value.elts]
+            stored_in_body = {n.id for x in body for n in ast.walk(x)
+                              if isinstance(n, ast.Name) and isinstance(n.ctx, ast.Store)}
+            tnames = [e.id for e in target.elts]
+            if len(set(locs)) == len(locs) and set(locs) <= stored_in_body and \
+                    not (set(tnames) & call_names):
+                ren = dict(zip(locs, tnames))
+                for x in body:
+                    for n in ast.walk(x):
+                        if isinstance(n, ast.Name) and n.id in ren:
+                            n.id = ren[n.id]
+                        elif isinstance(n, ast.ExceptHandler) and n.name in ren:
+                            n.name = ren[n.name]
                 return body[:-1] or [_loc(ast.Pass(), s)]
 
         def make(v, r):
@@ -1553,6 +1913,12 @@ class Inliner(object):
                     self.removed.append(key)
 
 
+def _returns_only(body, name):
+    """every return of the statement list returns the plain variable `name`"""
+    rets = [n for b in body for n in ast.walk(b) if isinstance(n, ast.Return)]
+    return bool(rets) and all(isinstance(r.value, ast.Name) and r.value.id == name for r in rets)
+
+
 def _has_call(e):
     return any(isinstance(n, (ast.Call, ast.Yield, ast.YieldFrom, ast.Await))
                for n in ast.walk(e))
@@ -1591,6 +1957,71 @@ def _append_fallthrough(stmts, none_assign):
     """target = None first, so that paths that fall off the end of the helper
     leave None (what a function without return gives)"""
     return copy.deepcopy(none_assign) + stmts
+
+
+# ---------------------------------------------------------------------------
+# dispatch tables:  if x in TABLE: v = TABLE[x]; BODY   ->   if x == k1: v = V1; BODY elif ...
+def _dispatch_tables(modname, tree, ref_consts, all_trees):
+    """new module-level dict literals with constant keys that are only read"""
+    out = {}
+    for s in tree.body:
+        if isinstance(s, ast.Assign) and len(s.targets) == 1 and \
+                isinstance(s.targets[0], ast.Name) and isinstance(s.value, ast.Dict) and \
+                s.value.keys and len(s.value.keys) <= 12 and \
+                all(isinstance(k, ast.Constant) and isinstance(k.value, (str, int))
+                    for k in s.value.keys):
+            name = s.targets[0].id
+            if '%s:%s' % (modname, name) in ref_consts:
+                continue
+            ok = True
+            for t in all_trees:
+                for n in ast.walk(t):
+                    if isinstance(n, ast.Name) and n.id == name and \
+                            isinstance(n.ctx, (ast.Store, ast.Del)) and n is not s.targets[0]:
+                        ok = False
+                    if isinstance(n, ast.Subscript) and isinstance(n.value, ast.Name) and \
+                            n.value.id == name and isinstance(n.ctx, (ast.Store, ast.Del)):
+                        ok = False
+                    if isinstance(n, ast.Call) and isinstance(n.func, ast.Attribute) and \
+                            isinstance(n.func.value, ast.Name) and n.func.value.id == name and \
+                            n.func.attr not in ('get', 'keys', 'items', 'values', 'copy'):
+                        ok = False
+            if ok:
+                out[name] = s.value
+    return out
+
+
+class _DictDispatch(ast.NodeTransformer):
+    def __init__(self, tables):
+        self.tables = tables
+        self.applied = []
+
+    def visit_If(self, node):
+        self.generic_visit(node)
+        t = node.test
+        if not (isinstance(t, ast.Compare) and len(t.ops) == 1 and isinstance(t.ops[0], ast.In)
+                and isinstance(t.comparators[0], ast.Name) and
+                t.comparators[0].id in self.tables and is_simple(t.left)):
+            return node
+        name = t.comparators[0].id
+        table = self.tables[name]
+        subject = ast.dump(t.left)
+        chain = None
+        for k, v in reversed(list(zip(table.keys, table.values))):
+            class Sub(ast.NodeTransformer):
+                def visit_Subscript(self_, n):
+                    self_.generic_visit(n)
+                    if isinstance(n.value, ast.Name) and n.value.id == name and \
+                            ast.dump(n.slice) == subject and isinstance(n.ctx, ast.Load):
+                        return _loc(copy.deepcopy(v), n)
+                    return n
+            body = [Sub().visit(copy.deepcopy(b)) for b in node.body]
+            test = _loc(ast.Compare(left=copy.deepcopy(t.left), ops=[ast.Eq()],
+                                    comparators=[copy.deepcopy(k)]), t)
+            orelse = [chain] if chain is not None else list(node.orelse)
+            chain = _loc(ast.If(test=test, body=body, orelse=orelse), node)
+        self.applied.append(name)
+        return chain
 
 
 # ---------------------------------------------------------------------------
@@ -1703,16 +2134,80 @@ def restore_function_names(trees, ref):
                 twins = [x for x, y in fpa.items() if y == fp]
                 if len(same) == 1 and len(twins) == 1:
                     pairs[n] = same[0]
+            # body edited as well: a new function whose signature (parameters and
+            # decorators) equals that of exactly one vanished function, and vice versa
             rest_new = [n for n in new if n not in pairs]
             rest_missing = [m for m in missing if m not in pairs.values()]
-            if len(rest_new) == 1 and len(rest_missing) == 1:
-                sig = ref_fp.get(prefix + rest_missing[0], {}).get('sig')
-                if sig is not None and list(_signature(cur[rest_new[0]])) == sig:
-                    pairs[rest_new[0]] = rest_missing[0]
+            for n in rest_new:
+                sig = list(_signature(cur[n]))
+                same = [m for m in rest_missing if ref_fp.get(prefix + m, {}).get('sig') == sig]
+                twins = [x for x in rest_new if list(_signature(cur[x])) == sig]
+                if len(same) == 1 and len(twins) == 1 and same[0] not in pairs.values() and \
+                        len(sig[0]) >= 2:
+                    pairs[n] = same[0]
             for n, m in pairs.items():
                 cur[n].name = m
                 applied.append('%s%s -> %s' % (prefix, n, m))
                 done.append((modname, clsname, n, m))
+    # a nested function of the reference that was lifted to module level (same body,
+    # called directly): put it back where the reference has it
+    for modname, tree in trees.items():
+        top = {b.name: b for b in tree.body if isinstance(b, ast.FunctionDef)}
+        parents = {}
+        for b in tree.body:
+            if isinstance(b, (ast.FunctionDef, ast.AsyncFunctionDef)):
+                parents[b.name] = b
+            elif isinstance(b, ast.ClassDef):
+                for c in b.body:
+                    if isinstance(c, (ast.FunctionDef, ast.AsyncFunctionDef)):
+                        parents['%s.%s' % (b.name, c.name)] = c
+        missing_nested = []
+        for k in ref_fp:
+            if not k.startswith(modname + ':'):
+                continue
+            q = k.split(':', 1)[1]
+            if '.' not in q:
+                continue
+            pq, nm = q.rsplit('.', 1)
+            if pq in parents and not any(
+                    isinstance(x, ast.FunctionDef) and x.name == nm
+                    for x in ast.walk(parents[pq]) if x is not parents[pq]):
+                missing_nested.append((k, pq, nm))
+        new_top = [n for n in top if '%s:%s' % (modname, n) not in ref_funcs and
+                   not any(d[0] == modname and d[1] is None and d[2] == n for d in done)]
+        if not missing_nested or not new_top:
+            continue
+        for n in new_top * 3:          # a lifted helper may be used by another lifted helper
+            if top[n] not in tree.body:
+                continue
+            fp, fpa = function_fingerprint(top[n]), function_fingerprint(top[n], True)
+            sig = list(_signature(top[n]))
+            cands = [x for x in missing_nested if ref_fp[x[0]].get('fp') == fp] or \
+                [x for x in missing_nested if ref_fp[x[0]].get('fpa') == fpa]
+            if len(cands) != 1:
+                continue
+            k, pq, nm = cands[0]
+            parent = parents[pq]
+            # only if it is referenced from that function (and itself) alone
+            users = set()
+            for b in tree.body:
+                for x in ast.walk(b):
+                    if isinstance(x, ast.Name) and x.id == n and isinstance(x.ctx, ast.Load):
+                        users.add(id(b))
+            owner = parent if parent in tree.body else next(
+                (c for c in tree.body if isinstance(c, ast.ClassDef) and parent in c.body), None)
+            if not users <= {id(top[n]), id(owner)}:
+                continue
+            tree.body.remove(top[n])
+            top[n].name = nm
+            for x in list(ast.walk(tree)) + list(ast.walk(top[n])):
+                if isinstance(x, ast.Name) and x.id == n:
+                    x.id = nm
+            i = 1 if (parent.body and isinstance(parent.body[0], ast.Expr) and
+                      isinstance(parent.body[0].value, ast.Constant)) else 0
+            parent.body.insert(i, top[n])
+            missing_nested.remove(cands[0])
+            applied.append('%s:%s -> %s.%s (nested again)' % (modname, n, pq, nm))
     # uses
     by_name = {}
     for modname, clsname, n, m in done:
@@ -1763,8 +2258,18 @@ def normalise_trees(trees, reference=None, inline=True):
         ref_consts = set(ref.get('constants', []))
         all_trees = list(trees.values())
         for modname, tree in trees.items():
-            got = propagate_constants(modname, tree, ref_consts, all_trees)
-            report['constants_propagated'].extend('%s:%s' % (modname, g) for g in got)
+            tables = _dispatch_tables(modname, tree, ref_consts, all_trees)
+            if tables:
+                dd = _DictDispatch(tables)
+                dd.visit(tree)
+                report.setdefault('dispatch_tables_unrolled', []).extend(
+                    '%s:%s' % (modname, n) for n in sorted(set(dd.applied)))
+        for rnd in range(2):      # a constant may be computed from another one
+            for modname, tree in trees.items():
+                got = propagate_constants(modname, tree, ref_consts, all_trees)
+                report['constants_propagated'].extend('%s:%s' % (modname, g) for g in got)
+                if got:
+                    ExprNorm().visit(tree)
     sn = StmtNorm()
     for modname, tree in trees.items():
         ExprNorm().visit(tree)
